@@ -164,10 +164,10 @@ pub enum S {
     OpAssign(String, &'static str, T, E),
     /// `x += e;` (the compound form of OpAssign)
     CompoundAssign(String, &'static str, T, E),
-    /// `s.f<k> = e;`
-    FieldAssign(String, usize, E),
-    /// `s.f<k> += e;`
-    FieldCompound(String, usize, &'static str, T, E),
+    /// `s.f<k>[.f<j>..] = e;`
+    FieldAssign(String, Vec<usize>, E),
+    /// `s.f<k>[.f<j>..] += e;`
+    FieldCompound(String, Vec<usize>, &'static str, T, E),
     /// `let [a, b, ..] = [e1, e2, ..];`
     LetFixed(Vec<String>, Vec<E>),
     /// `if c { continue; }` - directly inside a `for` body only.
@@ -284,8 +284,8 @@ impl S {
             S::Assign(n, e) => format!("{pad}{n} = {};", e.render(p)),
             S::OpAssign(n, op, _, e) => format!("{pad}{n} = {n} {op} {};", e.render(p)),
             S::CompoundAssign(n, op, _, e) => format!("{pad}{n} {op}= {};", e.render(p)),
-            S::FieldAssign(n, k, e) => format!("{pad}{n}.f{k} = {};", e.render(p)),
-            S::FieldCompound(n, k, op, _, e) => format!("{pad}{n}.f{k} {op}= {};", e.render(p)),
+            S::FieldAssign(n, path, e) => format!("{pad}{n}{} = {};", path.iter().map(|k| format!(".f{k}")).collect::<String>(), e.render(p)),
+            S::FieldCompound(n, path, op, _, e) => format!("{pad}{n}{} {op}= {};", path.iter().map(|k| format!(".f{k}")).collect::<String>(), e.render(p)),
             S::LetFixed(ns, es) => format!("{pad}let [{}] = [{}];", ns.join(", "), es.iter().map(|e| e.render(p)).collect::<Vec<_>>().join(", ")),
             S::ContinueIf(c) => format!("{pad}if {} {{ continue; }}", c.render(p)),
             S::Append(a, e) => format!("{pad}{a}.append({});", e.render(p)),
@@ -357,6 +357,17 @@ type Env = Vec<(String, V)>;
 
 fn lookup<'e>(env: &'e mut Env, n: &str) -> &'e mut V {
     env.iter_mut().rev().find(|(k, _)| k == n).map(|(_, v)| v).unwrap_or_else(|| panic!("evaluator: unbound variable {n}"))
+}
+
+fn member_mut<'v>(v: &'v mut V, path: &[usize]) -> &'v mut V {
+    let mut cur = v;
+    for k in path {
+        cur = match cur {
+            V::Struct(fs) => &mut fs[*k],
+            _ => panic!("evaluator: member path into a non-struct"),
+        };
+    }
+    cur
 }
 
 fn panic_msg(s: &str) -> Stop {
@@ -733,24 +744,15 @@ impl Eval<'_> {
                 let r = self.arith(op, t, &cur, &v)?;
                 *lookup(env, n) = r;
             }
-            S::FieldAssign(n, k, e) => {
+            S::FieldAssign(n, path, e) => {
                 let v = self.expr(e, env)?;
-                match lookup(env, n) {
-                    V::Struct(fs) => fs[*k] = v,
-                    _ => panic!("field assign"),
-                }
+                *member_mut(lookup(env, n), path) = v;
             }
-            S::FieldCompound(n, k, op, t, e) => {
+            S::FieldCompound(n, path, op, t, e) => {
                 let v = self.expr(e, env)?;
-                let cur = match lookup(env, n) {
-                    V::Struct(fs) => fs[*k].clone(),
-                    _ => panic!("field compound"),
-                };
+                let cur = member_mut(lookup(env, n), path).clone();
                 let r = self.arith(op, t, &cur, &v)?;
-                match lookup(env, n) {
-                    V::Struct(fs) => fs[*k] = r,
-                    _ => panic!("field compound"),
-                }
+                *member_mut(lookup(env, n), path) = r;
             }
             S::LetFixed(ns, es) => {
                 let mut vs = vec![];
@@ -1330,11 +1332,53 @@ impl<'a> Gen<'a> {
         Some(args)
     }
 
+    /// A random member path into struct `si` (descending into nested structs most of the time) and
+    /// the type at its end.
+    fn member_path(&mut self, si: usize) -> (Vec<usize>, T) {
+        let mut path = vec![];
+        let mut cur = si;
+        loop {
+            let fts = self.prog.structs[cur].fields.clone();
+            let k = self.rng.below(fts.len());
+            path.push(k);
+            match &fts[k] {
+                T::Struct(inner) if self.rng.chance(3, 4) => cur = *inner,
+                t => return (path, t.clone()),
+            }
+        }
+    }
+
     fn stmts(&mut self, env: &mut Vec<Var>, fidx: usize, n: usize, depth: usize, in_loop: bool, ret: &T) -> Vec<S> {
         let mut out = vec![];
         for _ in 0..n {
             let d = 2;
-            match self.rng.below(21) {
+            match self.rng.below(23) {
+                21 | 22 if depth > 0 && !self.prog.structs.is_empty() => {
+                    // `let mut p = ..; loop { if fuel == 0 || p == target { break; } .. p.a.b = ..; }`
+                    // with a struct type that has nested struct members when there is one.
+                    let nested: Vec<usize> = (0..self.prog.structs.len()).filter(|i| self.prog.structs[*i].fields.iter().any(|t| matches!(t, T::Struct(_)))).collect();
+                    let si = if !nested.is_empty() && self.rng.chance(4, 5) { *self.rng.pick(&nested) } else { self.rng.below(self.prog.structs.len()) };
+                    let t = T::Struct(si);
+                    let name = self.fresh("v");
+                    let init = self.expr(&t, env, fidx, 1);
+                    out.push(S::Let(name.clone(), t.clone(), true, init));
+                    env.push(Var { name: name.clone(), ty: t.clone(), mutable: true, moved: false, snap: false, pinned: false });
+                    let f = self.fresh("fuel");
+                    let k = 1 + self.rng.below(4) as u32;
+                    let target = self.expr(&t, env, fidx, 1);
+                    let c = E::EqDerived(Box::new(E::Var(name.clone())), Box::new(target));
+                    let mut body = vec![];
+                    for _ in 0..1 + self.rng.below(2) {
+                        let (path, ft) = self.member_path(si);
+                        let e = self.expr(&ft, env, fidx, 1);
+                        body.push(if matches!(ft, T::Int(_) | T::Felt) && self.rng.bool() {
+                            S::FieldCompound(name.clone(), path, *self.rng.pick(&["+", "*"]), ft, e)
+                        } else {
+                            S::FieldAssign(name.clone(), path, e)
+                        });
+                    }
+                    out.push(S::Loop(f, k, c, body));
+                }
                 0..=3 => {
                     let t = if self.rng.chance(1, 6) { T::Arr(Box::new(self.scalar_type())) } else { self.value_type(1) };
                     let name = self.fresh("v");
@@ -1395,12 +1439,33 @@ impl<'a> Gen<'a> {
                 9 if depth > 0 => {
                     let f = self.fresh("fuel");
                     let k = 1 + self.rng.below(5) as u32;
-                    let c = self.expr(&T::Bool, env, fidx, d);
+                    let mut c = self.expr(&T::Bool, env, fidx, d);
+                    // A loop that compares a whole mutable struct (a snapshot is taken by `==`)
+                    // while its body updates a member of it, possibly a nested one.
+                    let structs: Vec<Var> = env.iter().filter(|v| v.mutable && !v.moved && !v.snap && matches!(v.ty, T::Struct(_))).cloned().collect();
+                    let mut member_update: Option<S> = None;
+                    if !structs.is_empty() && self.rng.chance(2, 3) {
+                        let v = self.rng.pick(&structs).clone();
+                        let T::Struct(si) = v.ty else { unreachable!() };
+                        let target = self.expr(&v.ty, env, fidx, 1);
+                        c = E::EqDerived(Box::new(E::Var(v.name.clone())), Box::new(target));
+                        let (path, ft) = self.member_path(si);
+                        let e = self.expr(&ft, env, fidx, 1);
+                        member_update = Some(if matches!(ft, T::Int(_) | T::Felt) && self.rng.bool() {
+                            S::FieldCompound(v.name.clone(), path, *self.rng.pick(&["+", "*"]), ft, e)
+                        } else {
+                            S::FieldAssign(v.name.clone(), path, e)
+                        });
+                    }
                     let mut e1 = env.clone();
                     let nb = 1 + self.rng.below(3);
                     let saved = std::mem::replace(&mut self.nearest_loop_is_for, false);
                     let body = self.stmts(&mut e1, fidx, nb, depth - 1, true, ret);
                     self.nearest_loop_is_for = saved;
+                    let mut body = body;
+                    if let Some(u) = member_update {
+                        body.insert(self.rng.below(body.len() + 1), u);
+                    }
                     out.push(S::Loop(f, k, c, body));
                 }
                 10 if !in_loop => {
@@ -1451,13 +1516,12 @@ impl<'a> Gen<'a> {
                     if let Some(v) = (!c.is_empty()).then(|| self.rng.pick(&c).clone()) {
                         match &v.ty {
                             T::Struct(si) => {
-                                let fts = self.prog.structs[*si].fields.clone();
-                                let k = self.rng.below(fts.len());
-                                let e = self.expr(&fts[k], env, fidx, d);
-                                if matches!(fts[k], T::Int(_) | T::Felt) && self.rng.bool() {
-                                    out.push(S::FieldCompound(v.name.clone(), k, *self.rng.pick(&["+", "-", "*"]), fts[k].clone(), e));
+                                let (path, ft) = self.member_path(*si);
+                                let e = self.expr(&ft, env, fidx, d);
+                                if matches!(ft, T::Int(_) | T::Felt) && self.rng.bool() {
+                                    out.push(S::FieldCompound(v.name.clone(), path, *self.rng.pick(&["+", "-", "*"]), ft, e));
                                 } else {
-                                    out.push(S::FieldAssign(v.name.clone(), k, e));
+                                    out.push(S::FieldAssign(v.name.clone(), path, e));
                                 }
                             }
                             t => {
@@ -1590,10 +1654,22 @@ impl<'a> Gen<'a> {
     }
 
     pub fn program(mut self) -> (Program, Vec<(usize, String)>) {
-        for _ in 0..self.rng.below(3) {
+        for _ in 0..self.rng.below(4) {
             let n = 1 + self.rng.below(3);
             let base = self.scalar_type();
-            let fields = (0..n).map(|_| if self.rng.bool() { base.clone() } else { self.scalar_type() }).collect();
+            let nstructs = self.prog.structs.len();
+            let fields = (0..n)
+                .map(|_| {
+                    if nstructs > 0 && self.rng.chance(1, 3) {
+                        // A member of an earlier struct type: nested member paths.
+                        T::Struct(self.rng.below(nstructs))
+                    } else if self.rng.bool() {
+                        base.clone()
+                    } else {
+                        self.scalar_type()
+                    }
+                })
+                .collect();
             self.prog.structs.push(StructDef { fields });
         }
         for _ in 0..self.rng.below(3) {
